@@ -3,5 +3,5 @@ EXTENDS Bus, TLC
 cMatch == "R2" :> {"S1", "S2", "NOC"} @@ "R5" :> {} @@ "R6" :> {"NOC"} @@ "R7" :> {"S1", "S2", "NOC"}
 cMatch0 == <<>>
 cMatchAll == "R1" :> {"S1"} @@ "R2" :> {"S1", "S2", "S3", "NOC"} @@ "R3" :> {"S2"} @@ "R4" :> {"S1"} @@ "R5" :> {} @@ "R6" :> {"NOC"}
-             @@ "R7" :> {"S1", "S2", "S3", "NOC"}
+             @@ "R7" :> {"S1", "S2", "S3", "NOC"} @@ "R8" :> {"S3"}
 ====
